@@ -29,12 +29,23 @@ type ConcMerge struct {
 	Buf    int    `json:"buf,omitempty"`
 }
 
+// ConcPrelude: before the tasks start, a merge over freshly loaded file-backed
+// copies of some world segments runs into a storage fault (a fault history:
+// whatever a failed operation leaves behind in pools and caches is then met
+// by the concurrent phase).
+type ConcPrelude struct {
+	Inputs    []int `json:"inputs"`
+	FaultFrom int   `json:"fault_from"` // storage read (counted from the start of the merge) at which the first input starts failing
+	Kind      int   `json:"kind"`
+}
+
 type ConcCase struct {
-	Seg   int        `json:"seg"`
-	File  bool       `json:"file,omitempty"` // shared view is file-backed (every storage read is a yield point)
-	Tasks [][]ROp    `json:"tasks"`
-	Reuse []bool     `json:"reuse,omitempty"` // per task: keep one postings list/iterator and pass it as prealloc
-	Merge *ConcMerge `json:"merge,omitempty"`
+	Prelude *ConcPrelude `json:"prelude,omitempty"`
+	Seg     int          `json:"seg"`
+	File    bool         `json:"file,omitempty"` // shared view is file-backed (every storage read is a yield point)
+	Tasks   [][]ROp      `json:"tasks"`
+	Reuse   []bool       `json:"reuse,omitempty"` // per task: keep one postings list/iterator and pass it as prealloc
+	Merge   *ConcMerge   `json:"merge,omitempty"`
 }
 
 func init() {
@@ -69,6 +80,14 @@ func genConcCase(t *rapid.T, prop string) *Case {
 		}
 		cc.Merge = m
 	}
+	if rapid.IntRange(0, 2).Draw(t, "prelude") == 0 {
+		p := &ConcPrelude{FaultFrom: rapid.IntRange(0, 40).Draw(t, "faultfrom"), Kind: rapid.IntRange(0, NumReadFaultKinds-1).Draw(t, "faultkind")}
+		k := rapid.IntRange(1, 2).Draw(t, "nprelude")
+		for i := 0; i < k; i++ {
+			p.Inputs = append(p.Inputs, rapid.IntRange(0, 5).Draw(t, "pin"))
+		}
+		cc.Prelude = p
+	}
 	return &Case{World: wd, Conc: cc, Sched: genSchedule(t, 40)}
 }
 
@@ -93,6 +112,47 @@ func runConcCase(c *Case, env *Env) *Result {
 	ws := w.Segs[cc.Seg%len(w.Segs)]
 	ws.Exp() // compute before tasks start
 
+	if p := cc.Prelude; p != nil {
+		sched.Hold()
+		var psegs []segment.Segment
+		var pdrops []*roaring.Bitmap
+		var firstRA *SimReaderAt
+		ok := true
+		for i, in := range p.Inputs {
+			x := w.Segs[in%len(w.Segs)]
+			seg, _, ra, pi, err := LoadView(x.Bytes, StoreFile, sched)
+			if pi != nil || err != nil {
+				ok = false
+				break
+			}
+			if i == 0 {
+				firstRA = ra
+			}
+			psegs = append(psegs, seg)
+			// a deletion in every input: the merge takes the per-document path
+			bm := roaring.New()
+			if len(x.Docs) > 1 {
+				bm.Add(uint32(len(x.Docs) - 1))
+			}
+			pdrops = append(pdrops, bm)
+		}
+		if ok && firstRA != nil {
+			firstRA.SetFault(&ReadFault{From: firstRA.Calls() + p.FaultFrom, Kind: p.Kind})
+			wr := NewSimWriter(sched)
+			_, _, pi, err := RunMerge(&MergeDef{Public: true, Buf: 64}, 1025, psegs, pdrops, wr, nil)
+			if pi != nil {
+				sched.Release()
+				res.Fail = &Fail{Prop: "C19", Oracle: "read-fault", Kind: "panic", Site: pi.Site, Detail: fmt.Sprintf("a merge whose input storage fails from read %d on panicked: %s", p.FaultFrom, pi.Msg)}
+				return res
+			}
+			if err != nil {
+				res.probe("prelude-merge-failed-on-storage-fault")
+			} else {
+				res.probe("prelude-merge-completed")
+			}
+		}
+		sched.Release()
+	}
 	store := StoreMem
 	if cc.File {
 		store = StoreFile
